@@ -1,7 +1,7 @@
 (* Case decoder / result encoder for property C13 (tensor transformations, equality, similarity).
    Same language in harness/src/c13.rs and tools/props/c13.py.  Source terms `src` are those of
    Model/TSource.v ((0 shape data) tensor | (1 src names) reverse | (2 src ranges) range |
-   (3 src names) access | (4 src names) transpose).  `form` 0 = the method of Tensor (src must be
+   (3 src names) access | (4 src names) transpose | (5 src masks) mask | (6 src names) rename).  `form` 0 = the method of Tensor (src must be
    a (0 ..) term), 1 = the method of TensorView over the source.
 
      (13 1 form src dims)      reorder            (13 2 form src dims)    transpose
